@@ -565,19 +565,42 @@ def run_case(c, rng):
         act = ctl.ControlAction(link, 'status', rng.choice([LinkStatus.Closed, LinkStatus.Open]))
         tanks = [n for n, d in sh.nodes.items() if d['type'] == 'Tank']
         juncs = [n for n, d in sh.nodes.items() if d['type'] == 'Junction']
+        def compound(cond):
+            # AND / OR with a second (and sometimes a third) condition on some other node or link: every operand's object is required
+            for _ in range(rng.choice([1, 1, 2])):
+                if rng.random() < 0.5 and (tanks or juncs):
+                    n2 = rng.choice(sorted(tanks + juncs))
+                    c2 = ctl.ValueCondition(wn.get_node(n2), 'level' if n2 in tanks else 'pressure', rng.choice(['>', '<']), 5.0)
+                    req.add(('N', n2))
+                else:
+                    l2 = pick(sh.links)
+                    c2 = ctl.ValueCondition(wn.get_link(l2), 'flow', rng.choice(['>', '<']), 0.001)
+                    req.add(('L', l2))
+                first, second = (cond, c2) if rng.random() < 0.7 else (c2, cond)
+                cond = (ctl.AndCondition if rng.random() < 0.6 else ctl.OrCondition)(first, second)
+            c.count('compound_conditions')
+            return cond
+
+        def make(cond):
+            if rng.random() < 0.4:
+                cond = compound(cond)
+                if rng.random() < 0.6:
+                    return ctl.Rule(cond, [act], priority=3, name=name)
+            return ctl.Control(cond, act, name=name)
+
         if form < 0.3 or (not tanks and not juncs):
             cond = ctl.SimTimeCondition(wn, '=', 3600.0 * rng.randint(1, 10))
-            obj = ctl.Control(cond, act, name=name)
+            obj = make(cond)
         elif form < 0.6 and tanks:
             t = rng.choice(sorted(tanks))
             cond = ctl.ValueCondition(wn.get_node(t), 'level', '>', 3.0)
             req.add(('N', t))
-            obj = ctl.Control(cond, act, name=name)
+            obj = make(cond)
         elif form < 0.8 and juncs:
             j = rng.choice(sorted(juncs))
             cond = ctl.ValueCondition(wn.get_node(j), 'pressure', '<', 10.0)
             req.add(('N', j))
-            obj = ctl.Control(cond, act, name=name)
+            obj = make(cond)
         else:
             cond = ctl.SimTimeCondition(wn, '>=', 7200.0)
             other = pick(sh.links)
